@@ -94,7 +94,7 @@ func checkC03(c *Check) {
 		// compared (==) against the parsed cookie names
 		for _, b := range R.CookieReader.Blocks {
 			for _, ins := range b.Instrs {
-				if bo, isB := ins.(*ssa.BinOp); isB && bo.Op == token.EQL && (bo.X == ssa.Value(cc) || bo.Y == ssa.Value(cc)) {
+				if bo, isB := ins.(*ssa.BinOp); isB && (bo.Op == token.EQL || bo.Op == token.NEQ) && (bo.X == ssa.Value(cc) || bo.Y == ssa.Value(cc)) {
 					readOK = true
 				}
 			}
@@ -185,8 +185,11 @@ func checkC03(c *Check) {
 			for cond, pol := range cff.At(r) {
 				inner, neg := unwrapBool(cond)
 				bo, ok := inner.(*ssa.BinOp)
-				if !ok || bo.Op != token.EQL || (pol == neg) || !isString(bo.X.Type()) {
+				if !ok || (bo.Op != token.EQL && bo.Op != token.NEQ) || !isString(bo.X.Type()) {
 					continue
+				}
+				if ((bo.Op == token.EQL) == (pol != neg)) == false {
+					continue // the fact says the two strings differ
 				}
 				isReqPath := func(v ssa.Value) bool {
 					sc, si, isC := asCall(resolveCell(stripConv(v)))
@@ -316,7 +319,7 @@ func checkC03(c *Check) {
 	c.Obl(len(vals) >= 2, "C03.R5", "validators", "-", fmt.Sprintf("%d IdP-response validators", len(vals)), "IdP-response validators not found")
 	for _, v := range vals {
 		okFold := false
-		for _, ci := range callsTo(v, "strings.EqualFold") {
+		for _, ci := range callsToDeep(v, 2, "strings.EqualFold") {
 			a := ci.Common().Args
 			s0, c0 := constString(a[0])
 			s1, c1 := constString(a[1])
@@ -328,13 +331,15 @@ func checkC03(c *Check) {
 		c.Obl(okFold, "C03.R5", "token-type/"+fnKey(v), P.Pos(v.Pos()), "token_type compared with strings.EqualFold(…, \"Bearer\")", "token_type is not compared case-insensitively with \"Bearer\" in "+fnKey(v))
 		// expires_in: only negative values rejected
 		okExp := true
-		for _, b := range v.Blocks {
+		for _, vf := range deepFuncs(v, 2) {
+			for _, b := range vf.Blocks {
 			for _, ins := range b.Instrs {
 				if bo, isB := ins.(*ssa.BinOp); isB && depFields(bo.X)["ExpiresIn"] {
 					if k, isK := constInt(bo.Y); isK && !(bo.Op == token.LSS && k == 0) {
 						okExp = false
 					}
 				}
+			}
 			}
 		}
 		c.Obl(okExp, "C03.R5", "expires-in/"+fnKey(v), P.Pos(v.Pos()), "only a negative expires_in is rejected", "the validator rejects an absent (zero) expires_in")
@@ -794,6 +799,21 @@ func c03R7(c *Check, R *Roles, m *hModel) {
 				}
 			}
 		}
+		if reason == "" {
+			// the deciding condition is a call of an own boolean helper that embodies the audience comparison
+			for _, cnd := range branchConds(r) {
+				inner, _ := unwrapBool(cnd)
+				if hc, _, isC := asCall(inner); isC {
+					if g := hc.Common().StaticCallee(); g != nil {
+						for _, ac := range audienceComparisons(P, R, v) {
+							if ac.(*ssa.BinOp).Parent() == g {
+								reason = "no audience element equals the client id"
+							}
+						}
+					}
+				}
+			}
+		}
 		// the most recent condition decides: the rejection must be *because of* the classified reason, i.e. the
 		// last branch taken before the return is the classifying one
 		if reason != "" {
@@ -814,6 +834,16 @@ func c03R7(c *Check, R *Roles, m *hModel) {
 			last := lastBranchCond(r)
 			reason := ""
 			if last != nil {
+				inner0, _ := unwrapBool(last)
+				if hc, _, isC := asCall(inner0); isC && hc.Common().StaticCallee() != nil {
+					for _, other := range idpValidators(R) {
+						if other == hc.Common().StaticCallee() && other != fn {
+							reason = "delegated to " + other.Name() + " (classified there)"
+						}
+					}
+				}
+			}
+			if last != nil && reason == "" {
 				df := depFields(last)
 				inner, _ := unwrapBool(last)
 				switch {
@@ -937,6 +967,9 @@ func condMatchesReason(cond ssa.Value, reason string) bool {
 			return isS && s == "nonce"
 		}) || condIsParamOnly(inner)
 	case "no audience element equals the client id":
+		if hc, _, isC := asCall(inner); isC && hc.Common().StaticCallee() != nil && hc.Common().StaticCallee().Blocks != nil {
+			return true // classified through the helper (see audienceComparisons)
+		}
 		if ph, ok := inner.(*ssa.Phi); ok {
 			for d := range dataDeps(ph) {
 				if c, isC := d.(*ssa.Call); isC && c.Common().IsInvoke() && c.Common().Method.Name() == "Audience" {
